@@ -314,6 +314,8 @@ class AstInterpreter(InterpreterBase):
         if is_disabled(args, kwargs):
             res = Disabler()
         else:
+            # The methods of the elementary types take values, not nodes
+            kwargs = {k: self.node_to_runtime_value(v) for k, v in kwargs.items()}
             res = self.inner_method_call(obj, method_name, args, kwargs)
         self.funcvals[node] = res
 
